@@ -26,6 +26,7 @@ TECHNIQUE = (
     "extractor over the full Unicode alphabet (atom partition), model bound to the code by replaying witnesses, per-transition "
     "words and edited words against the real regex and the real filter; plus exhaustive differential runs of the two tokenizers"
 )
+TECHNIQUE += "; " + 'also: construction histories (building or editing one tokenizer must not change another), 64 KiB block boundaries'
 RULE = (
     "partA: all extractors with filter strings; states = reachable (NFA state set, filter state) pairs, transitions = atom steps; "
     "partB: all documents of <= k fragments x full extractor list, every reporter string of the database in two minimal forms, and all 1024 sub-lists of a 10-extractor pool x all documents; construction histories: every sequence of <= 2 (quick) / 3 tokenizer constructions over 5 extractor lists, all tokenizers re-checked after each "
